@@ -389,7 +389,8 @@ impl FatVolume {
     }
 
     /// Finds a empty entry space and writes the new entry to it, allocates a new cluster if it's
-    /// needed
+    /// needed. The new entry refers to `first_cluster` (which is `ClusterId::EMPTY` for a new,
+    /// empty, file).
     pub(crate) fn write_new_directory_entry<D, T>(
         &mut self,
         block_cache: &mut BlockCache<D>,
@@ -397,6 +398,7 @@ impl FatVolume {
         dir_cluster: ClusterId,
         name: ShortFileName,
         attributes: Attributes,
+        first_cluster: ClusterId,
     ) -> Result<DirEntry, Error<D::Error>>
     where
         D: BlockDevice,
@@ -439,7 +441,7 @@ impl FatVolume {
                                 let entry = DirEntry::new(
                                     name,
                                     attributes,
-                                    ClusterId::EMPTY,
+                                    first_cluster,
                                     ctime,
                                     block_idx,
                                     (i * OnDiskDirEntry::LEN) as u32,
@@ -502,7 +504,7 @@ impl FatVolume {
                                 let entry = DirEntry::new(
                                     name,
                                     attributes,
-                                    ClusterId(0),
+                                    first_cluster,
                                     ctime,
                                     block_idx,
                                     (i * OnDiskDirEntry::LEN) as u32,
@@ -1308,9 +1310,12 @@ impl FatVolume {
 
     /// Create a new directory.
     ///
-    /// 1) Creates the directory entry in the parent
-    /// 2) Allocates a new cluster to hold the new directory
-    /// 3) Writes out the `.` and `..` entries in the new directory
+    /// 1) Allocates a new cluster to hold the new directory
+    /// 2) Writes out the `.` and `..` entries in the new directory
+    /// 3) Creates the directory entry in the parent
+    ///
+    /// In that order, so that the entry never refers to a cluster that has not
+    /// been set up as a directory.
     pub(crate) fn make_dir<D, T>(
         &mut self,
         block_cache: &mut BlockCache<D>,
@@ -1323,15 +1328,9 @@ impl FatVolume {
         D: BlockDevice,
         T: TimeSource,
     {
-        let mut new_dir_entry_in_parent =
-            self.write_new_directory_entry(block_cache, time_source, parent, sfn, att)?;
-        if new_dir_entry_in_parent.cluster == ClusterId::EMPTY {
-            new_dir_entry_in_parent.cluster = self.alloc_cluster(block_cache, None, false)?;
-            // update the parent dir with the cluster of the new dir
-            self.write_entry_to_disk(block_cache, &new_dir_entry_in_parent)?;
-        }
-        let new_dir_start_block = self.cluster_to_block(new_dir_entry_in_parent.cluster);
-        debug!("Made new dir entry {:?}", new_dir_entry_in_parent);
+        let new_dir_cluster = self.alloc_cluster(block_cache, None, false)?;
+        let new_dir_start_block = self.cluster_to_block(new_dir_cluster);
+        debug!("Made new dir cluster {:?}", new_dir_cluster);
         let now = time_source.get_timestamp();
         let fat_type = self.get_fat_type();
         // A blank block
@@ -1343,7 +1342,7 @@ impl FatVolume {
             ctime: now,
             attributes: att,
             // point at ourselves
-            cluster: new_dir_entry_in_parent.cluster,
+            cluster: new_dir_cluster,
             size: 0,
             entry_block: new_dir_start_block,
             entry_offset: 0,
@@ -1384,7 +1383,23 @@ impl FatVolume {
             block_cache.write_back()?;
         }
 
-        Ok(())
+        // The new directory is complete. Now make it visible.
+        match self.write_new_directory_entry(
+            block_cache,
+            time_source,
+            parent,
+            sfn,
+            att,
+            new_dir_cluster,
+        ) {
+            Ok(_entry) => Ok(()),
+            Err(e) => {
+                // No room for the entry, so hand the cluster back. The error
+                // we report is the one that stopped us.
+                let _ = self.free_cluster_chain(block_cache, new_dir_cluster);
+                Err(e)
+            }
+        }
     }
 }
 
